@@ -106,6 +106,19 @@ def observe(scn: dict) -> dict:
             rec["bad"] = bad
             return rec
         rec["closure_ok"] = True
+        # y0 supplied as a dict in another key order: the integrator still passes the state in declaration order
+        if len(c["vars"]) > 1:
+            try:
+                y0rev = {v: float(fn_to_dict(p0["y"])[v]) for v in reversed(list(c["vars"]))}
+                sim_r = Simulator(m, y0=y0rev, use_jacobian=True, integrator=partial(Scipy, method="BDF"))
+                jv = np.atleast_2d(np.array(sim_r.integrator.jacobian(0.0, y0), dtype=float)).tolist()
+            except Exception as e:  # noqa: BLE001
+                rec["bad"] = {"what": "Jacobian closure raised with y0 in another key order", "exception": f"{type(e).__name__}: {str(e)[:120]}"}
+                return rec
+            bad = _matrix_bad(p0["jac"], jv, "Jacobian closure with y0 given in another key order")
+            if bad:
+                rec["bad"] = bad
+                return rec
         # the same closure after a parameter update on the simulator (spec: the model with p := 5)
         has_ia = bool(sh["ia_parameter"]) or any(v["k"] == "ia" for v in c["init"].values())
         if not has_ia and "pts_alt" in scn:
